@@ -84,7 +84,10 @@ func (pg *PERIOGroup) newTicker(wg *sync.WaitGroup, evtCh chan Event) error {
 
 func (pg *PERIOGroup) stopTicker() {
 	logger.PerioLog.Debugf("stopTicker: [%+v]", pg.period)
-	pg.stopCh <- struct{}{}
+	// closing is enough to end the ticker goroutine. Do not hand the signal
+	// over synchronously: the ticker may be waiting for room in the event
+	// queue to post a tick, and only the caller of stopTicker drains that
+	// queue
 	close(pg.stopCh)
 }
 
